@@ -256,3 +256,53 @@ impl RawPackerW {
         ensures final(self).file_writer is Some,
     { unimplemented!() }
 }
+
+// ---- repair index: index entries dropped for re-reading vs. removal of the index files that held them ----
+// `queued`: some existing pack lost its entry from a stored index file and waits in packs_to_read for its header to be
+// re-read; until the rebuilt entries are written (Indexer::finalize) that pack is not indexed anywhere
+pub struct RepairIdxWorld { pub queued: Ghost<bool> }
+pub struct IndexFileR { pub packs: Vec<u64>, pub packs_to_delete: Vec<u64> }
+pub uninterp spec fn QUEUES(f: IndexFileR, read_all: bool) -> bool;   // does check_pack queue a pack of this file for re-reading?
+pub struct RepairIndexOptions { pub read_all: bool }
+pub struct PackCheckerR { pub _opaque: u64 }
+impl PackCheckerR {
+    #[verifier::external_body]
+    pub fn new(repo: &VRepoR3) -> RusticResult<PackCheckerR> { unimplemented!() }
+    // PackChecker::check_pack (unit of C12)
+    #[verifier::external_body]
+    pub fn vcheck_pack(&mut self, index: IndexFileR, read_all: bool, w: &mut RepairIdxWorld) -> (r: (IndexFileR, bool))
+        ensures final(w).queued@ == (old(w).queued@ || QUEUES(index, read_all)),
+    { unimplemented!() }
+    #[verifier::external_body]
+    pub fn into_pack_to_read(self) -> Vec<(PackId, Option<u32>, u32)> { unimplemented!() }
+}
+pub struct VIdxBe { pub _opaque: u64 }
+impl VIdxBe {
+    #[verifier::external_body]
+    pub fn vstream_all_index(&self, p: &ProgressR) -> RusticResult<Vec<RusticResult<(Id, IndexFileR)>>> { unimplemented!() }
+    #[verifier::external_body]
+    pub fn save_file(&self, f: &IndexFileR) -> RusticResult<Id> { unimplemented!() }
+    // removing a stored index file.  PRECONDITION: no existing pack is left without an index entry by it, i.e. nothing is
+    // waiting to be re-read (the rebuilt entries are written first)
+    #[verifier::external_body]
+    pub fn vremove_index(&self, id: &Id, w: &RepairIdxWorld) -> (r: RusticResult<()>)
+        requires !w.queued@,
+    { unimplemented!() }
+}
+
+// warm-up + re-reading the headers of the queued packs + Indexer::add_with + Indexer::finalize (ELIDED in the unit)
+#[verifier::external_body]
+pub fn vreread_headers_and_write_index(checker: PackCheckerR, w: &mut RepairIdxWorld) -> (r: RusticResult<()>)
+    ensures r is Ok ==> !final(w).queued@,
+{ unimplemented!() }
+impl ProgressR {
+    #[verifier::external_body]
+    pub fn finish(&self) { unimplemented!() }
+}
+
+#[verifier::external_body]
+pub fn vreread_headers(checker: PackCheckerR) { unimplemented!() }
+#[verifier::external_body]
+pub fn vindexer_finalize_rebuilt(w: &mut RepairIdxWorld) -> (r: RusticResult<()>)
+    ensures r is Ok ==> !final(w).queued@,
+{ unimplemented!() }
